@@ -3,16 +3,18 @@ namespace Yaclib.CoSharedMutex
 
 set_option maxHeartbeats 4000000 in
 theorem inv_step_3 {cfg s l s'} (hi : Inv cfg s) (hs : Step s l s') (hg : grpOf l = 3) : Inv cfg s' := by
-  cases hi
   cases hs with
   | rdFsub c h =>
       by_cases hW : s.W = 0
-      · simp only [doRdFsub, hW, ↓reduceIte]; sm_dbg [List.count_le_length]
-      · simp only [doRdFsub, hW, ↓reduceIte]; sm_dbg [List.count_le_length]
+      · cases hi
+        simp only [doRdFsub, hW, ↓reduceIte]; sm_auto [List.count_le_length]
+      · cases hi
+        cases hpw : s.pw <;> simp only [doRdFsub, hW, ↓reduceIte] <;> sm_auto [List.count_le_length]
   | rwFsub c h =>
+      cases hi
       by_cases h1 : s.rwait = 1
-      · cases hpw : s.pw <;> simp only [doRwFsub, h1, hpw, ↓reduceIte] <;> sm_dbg [List.count_le_length]
-      · simp only [doRwFsub, h1, ↓reduceIte]; sm_dbg [List.count_le_length]
+      · cases hpw : s.pw <;> simp only [doRwFsub, h1, hpw, ↓reduceIte] <;> sm_auto [List.count_le_length]
+      · simp only [doRwFsub, h1, ↓reduceIte]; sm_auto [List.count_le_length]
   | _ => simp [grpOf] at hg
 
 end Yaclib.CoSharedMutex
